@@ -3,7 +3,7 @@
    gen_row / gen_domain_line model util/gentld.pl and util/gen_utf8_pass_test.pl. *)
 From Coq Require Import List NArith ZArith Lia Bool.
 From Coq Require Import Strings.Byte.
-Require Import Bytes Codes Hex Local Local6531 LocalSpec LocalProofs Utf8Spec Local6531Spec Local6531Proofs Domain DomainSpec DomainProofs Ip Special SpecialProofs Email EmailProofs Api ApiProofs TldProofs EnumTie.
+Require Import Bytes Codes Hex Local Local6531 LocalSpec LocalProofs Utf8Spec Local6531Spec Local6531Proofs Domain DomainSpec DomainProofs Ip Special SpecialProofs Email EmailProofs Api ApiProofs TldProofs GenModel GenProofs EnumTie.
 Import ListNotations.
 From Coq Require Strings.String.
 Import Strings.String.StringSyntax.
